@@ -119,6 +119,26 @@ check("C04", "TLA+ line grammar HeaderLine!Parse; TLC proves Parse(Format(f, pad
       "sequences; TLC proves it inverts formatting on every padding of every pooled field tuple in six section kinds, and "
       "evaluates it on every concrete line given to the real parser, comparing the four stripped fields.", TRUSTED,
       "DESIGN.md 4 C04")
+RT = ("Model checking + trace validation: the algorithm-layer module WriteLayout is model-checked by TLC (column count after "
+      "sniffing a wrapped layout equals the declared count for every curve count 1..40 x fields-per-line 1..12 x rows; reader "
+      "and writer order tables agree for every spelling/version/case -- the pre-repair variants are shown to fail), the "
+      "instance space is enumerated by TLC (WriteInstances) and every instance is executed on real lasio; Trace_RoundTrip "
+      "(TLC) judges the logged observation clause by clause. ")
+check("C01", "WriteLayout (TLC) for the wrapped-layout arithmetic; WriteInstances family C01 (46 000 option tuples, TLC) written and "
+      "re-read by real lasio; per-sample printed-precision verdicts validated by Trace_RoundTrip",
+      RT + "C01: curve count, mnemonic order, row count, every finite sample within half a unit of the last printed digit, "
+      "every NaN off the index back as NaN, index never nulled.", TRUSTED, "DESIGN.md 4 C01")
+check("C03", "WriteLayout!OrdersAgree (TLC); WriteInstances family C03 (item lists x section x version x case) built, written and "
+      "re-read; items compared field by field by Trace_RoundTrip, which also evaluates the statement's conformance predicate",
+      RT + "C03: same item count and, per item, case-mapped original mnemonic, unit, canonical value, description, with the "
+      "permitted differences as explicit disjuncts; ~Other equal.", TRUSTED, "DESIGN.md 4 C03")
+check("C11", "load/save cycles read;(write;re-read)^k over corpus, generated and mutated inputs x writer option sets; canonical content "
+      "digests validated by Trace_RoundTrip!TCycle (TLC)",
+      RT + "C11: every re-read equals the first re-read (header numbers numerically, data by bytes).", TRUSTED, "DESIGN.md 4 C11")
+check("C12", "WriteLayout!OrdersAgree (TLC); all pairs of writer configurations (WriteInstances family C12) x inputs; content digests "
+      "of the two re-reads validated by Trace_RoundTrip!TPair (TLC)",
+      RT + "C12: for every pair of configurations of equal precision the re-read contents are equal apart from VERS and WRAP.",
+      TRUSTED, "DESIGN.md 4 C12")
 
 
 def main():
